@@ -71,7 +71,7 @@ def random_domain_op(rng, sim, maxlen=40):
     if k in ("truncate_value", "truncate_index") and n < 4:
         k = "append"
     if k == "append":
-        return {"k": k, "periodic": rng.random() < 0.5}
+        return dict({"k": k, "periodic": rng.random() < 0.5}, **({"pflag": rng.choice(["np", "int"])} if rng.random() < 0.3 else {}))
     if k in ("shift_x", "shift_y"):
         return {"k": k, "v": R(Fraction(rng.randint(-12, 12), 2)), "as_int": rng.random() < 0.3}
     if k == "scale_x":
